@@ -245,3 +245,22 @@ M("C20", "owner-bound-strongly", MCF, "        self._owner_ref = weakref_ref(own
 M("C20", "lru-on-get-wrapped", SGF, "    def get_wrapped_instance(self, instance: Any) -> Optional[WrappedInstance]:", "    @lru_cache(maxsize=None)\n    def get_wrapped_instance(self, instance: Any) -> Optional[WrappedInstance]:", "lru_cache:SymbolGraph.get_wrapped_instance")
 M("C20", "no-relation-purge", SGF, "        for source, target, relation in list(\n            self._instance_graph.in_edges(index)\n        ) + list(self._instance_graph.out_edges(index)):\n            self._relation_index.get(relation.wrapped_field, set()).discard(\n                (source, target)\n            )\n", "", "_relation_index")
 R("C20", "new-classvar-of-types", SGF, "    _relation_index: Dict[WrappedField, set[tuple[int, int]]] = field(", "    known_types: ClassVar[Dict[str, Type]] = {}\n    _relation_index: Dict[WrappedField, set[tuple[int, int]]] = field(")
+
+# ------------------------------------------------------------------------------------- C04
+DAOF = "krrood/ormatic/dao.py"
+M("C04", "from-state-no-keepalive", DAOF, "        self.keep_alive[id(dao_obj)] = dao_obj\n", "", "IDKEY@FromDAOState.allocate_and_memoize")
+M("C04", "to-state-no-keepalive", DAOF, "        self.memo[oid] = result\n        self.keep_alive[oid] = obj\n", "        self.memo[oid] = result\n", "IDKEY@ToDAOState.register")
+M("C04", "register-after-descent", DAOF, "        if register:\n            state.register(obj, result)\n\n        # choose the correct building method\n        if alt_base is not None:\n            result.to_dao_if_subclass_of_alternative_mapping(\n                obj=dao_obj, base=alt_base, state=state\n            )\n        else:\n            result.to_dao_default(obj=dao_obj, state=state)\n",
+  "        # choose the correct building method\n        if alt_base is not None:\n            result.to_dao_if_subclass_of_alternative_mapping(\n                obj=dao_obj, base=alt_base, state=state\n            )\n        else:\n            result.to_dao_default(obj=dao_obj, state=state)\n\n        if register:\n            state.register(obj, result)\n", "register-before-descent")
+M("C04", "no-memo-lookup", DAOF, "        existing = state.get_existing(obj)\n        if existing is not None:\n            return existing\n", "", "to_dao#lookup-first")
+M("C04", "register-default-off", DAOF, "        register=True,\n    ) -> _DAO:", "        register=False,\n    ) -> _DAO:", "register-before-descent")
+M("C04", "from-dao-no-lookup", DAOF, "        if state.has(self):\n            return state.get(self)\n", "", "from_dao#lookup-first")
+M("C04", "from-dao-allocate-late", DAOF, "        result = self._allocate_uninitialized_and_memoize(state)\n        mapper: sqlalchemy.orm.Mapper = sqlalchemy.inspection.inspect(type(self))\n\n        argument_names = self._argument_names()\n        kwargs = self._collect_scalar_kwargs(mapper, argument_names)\n\n        rel_kwargs, circular_refs = self._collect_relationship_kwargs(\n            mapper, argument_names, state\n        )\n",
+  "        mapper: sqlalchemy.orm.Mapper = sqlalchemy.inspection.inspect(type(self))\n\n        argument_names = self._argument_names()\n        kwargs = self._collect_scalar_kwargs(mapper, argument_names)\n\n        rel_kwargs, circular_refs = self._collect_relationship_kwargs(\n            mapper, argument_names, state\n        )\n        result = self._allocate_uninitialized_and_memoize(state)\n", "memoize-before-descent")
+M("C04", "construct-instead-of-new", DAOF, "        result = original_cls.__new__(original_cls)\n        self.memo[id(dao_obj)] = result", "        result = original_cls()\n        self.memo[id(dao_obj)] = result", "allocate_and_memoize#shape")
+M("C04", "reader-onetomany-always-list", DAOF, "            if relationship.direction == MANYTOONE or (\n                relationship.direction == ONETOMANY and not relationship.uselist\n            ):\n                parsed, is_circular", "            if relationship.direction == MANYTOONE:\n                parsed, is_circular", "relationships#ONETOMANY,uselist=False")
+M("C04", "writer-drops-manytomany", DAOF, "            elif relationship.direction in (ONETOMANY, MANYTOMANY):\n                self._extract_collection_relationship(", "            elif relationship.direction in (ONETOMANY,):\n                self._extract_collection_relationship(", "relationships#MANYTOMANY")
+M("C04", "circular-by-equality", DAOF, "        return parsed, parsed is self.memo.get(id(value))", "        return parsed, parsed == self.memo.get(id(value))", "parse_single#identity")
+R("C04", "keepalive-list", DAOF, "        self.keep_alive[id(dao_obj)] = dao_obj\n", "        self.keep_alive[len(self.keep_alive)] = dao_obj\n") if False else None
+R("C04", "rename-existing", DAOF, "        existing = state.get_existing(obj)\n        if existing is not None:\n            return existing\n", "        found = state.get_existing(obj)\n        if found is not None:\n            return found\n")
+CASES[:] = [c for c in CASES if c]
